@@ -11,9 +11,10 @@ RULE = ('every (version, level, mode) capacity boundary of the independent capac
         'boost, multi-part lists and random lengths; accepted symbols are decoded and their segment list re-costed in '
         'every smaller admissible version; distinct = (version, level, mode, side, variant) boundary cases exercised')
 ASSUMPTIONS = common.ASSUME_QR + ['multi-part content: a version is accepted if it is minimal under either segmentation (DESIGN 4.1)']
-REQUIRED = ['evaluations', 'encode_observed', 'symbols_decoded', 'boundary_cases', 'overflow_expected_and_raised',
+REQUIRED = ['cases_under_python_O', 'evaluations', 'encode_observed', 'symbols_decoded', 'boundary_cases', 'overflow_expected_and_raised',
             'requested_version_accepted']
 TIMEOUT = {'quick': 3600, 'thorough': 21600}
+OPT_SLICE = {'quick': 120, 'thorough': 1500}     # cases re-run by one more worker under python -O (core.run_sharded)
 
 
 def gen_cases(tier, seed):
@@ -205,6 +206,7 @@ def gen_cases(tier, seed):
         if rng.random() < 0.5:
             kw['error'] = rng.choice(['L', 'M', 'Q', 'H'])
         cases.append(common.mk(parts, tag='multi', **kw))
+    cases += common.big_int_cases(rng, tier)
     # degenerate parts at a capacity boundary: an int 0 part, an empty str/bytes part (each still is content /
     # a segment), a one-part list - with the rest of the list exactly filling the version
     for v in oracle.MICRO + [1, 2, 9, 10, 26, 27, 40]:
